@@ -5,6 +5,7 @@ import Driver.Util
 import Driver.ArgStore
 import FiddleModel.Model.Graph
 import FiddleModel.Model.Select
+import FiddleModel.Model.Copy
 open Lean Fiddle
 
 namespace Driver.Graph
@@ -270,6 +271,13 @@ def handle (req : Json) : R Json := do
           else none
         | none => none
       out := out ++ [(q, jArr res)]
+    | "deepcopy" =>
+      out := out ++ [(q, heapJson (Heap.deepcopy h))]
+    | "shallow_copy" =>
+      let bk := match jgetD req "bk" .null with | .str s => some s | _ => none
+      match root with
+      | .ref i => out := out ++ [(q, heapJson (Heap.shallowCopy h i bk))]
+      | .atom _ => throw "shallow_copy of an atom"
     | "build" =>
       match build h fails root with
       | .error e => out := out ++ [(q, berrJson e)]
